@@ -238,6 +238,15 @@ def _run(run, case, spec, rng, d):
     is_deg = srs == 'EPSG:4326'
     count = {'bad': 0}
     offgrid_addrs = set()
+    stretched = []   # bboxes of upstream sub-requests issued at a stretched resolution (coverage edges)
+
+    def note_stretched(n0_):
+        for c_ in upstream.UP.log:
+            if c_.n > n0_ and c_.extra.get('offgrid', 0.0) > 0.02 and 'q' in c_.extra:
+                stretched.append(c_.extra['q']['bbox'])
+
+    def touches_stretched(rect_):
+        return any(rect_[0] < b_[2] and rect_[2] > b_[0] and rect_[1] < b_[3] and rect_[3] > b_[1] for b_ in stretched)
     # can rows be counted from the other corner without moving any rectangle? (exact, independent of TileGrid)
     from vlib.gridmodel import GridModel
     gm = GridModel(grid.bbox, [grid.resolution(z) for z in range(grid.levels)], grid.tile_size, grid.origin)
@@ -271,6 +280,12 @@ def _run(run, case, spec, rng, d):
             bad(service, 'advertised_address_refused', '%s -> %d %s %r for advertised rectangle %r' % (
                 url, r.code, r.content_type, r.body[:160], rect), **kw)
             return None
+        note_stretched(n0)
+        if offg > 0.02 or touches_stretched(rect):
+            # the sub-image at a coverage edge was requested at a stretched resolution; the NOISE picture is defined
+            # per level, so the expectation is undefined here (placement accuracy of sub-images is C01's subject)
+            run.dc('tile_built_from_a_stretched_sub_request_at_the_coverage_edge')
+            return r
         ok, detail, n, lv = judge_rect(lat, rect, size, r.image(), clip, tolerant=bool(clip))
         if n == 0:
             run.dc('tile_without_interior_pixel')
@@ -420,7 +435,12 @@ def _run(run, case, spec, rng, d):
                 x1, y1 = tr.transform(b['east'], no)
                 rect = (x0, y0, x1, y1)
                 href = urllib.parse.urlsplit(ov['href']).path
+                n0k = upstream.UP.n
                 rr = sc.get(href)
+                note_stretched(n0k)
+                if touches_stretched(rect):
+                    run.dc('tile_built_from_a_stretched_sub_request_at_the_coverage_edge')
+                    continue
                 run.hit('kml_tiles')
                 run.judge(('kml', gcls), nontrivial=True)
                 if rr.code != 200:
